@@ -261,8 +261,12 @@ pub(crate) fn div_rem_in_place(
     debug_assert!(lhs.len() >= rhs.len() && rhs.len() >= 2);
 
     if rhs.len() <= THRESHOLD_SIMPLE || lhs.len() - rhs.len() <= THRESHOLD_SIMPLE {
+        #[cfg(dashu_verif)]
+        dashu_base::verif::hit(dashu_base::verif::DIV_SIMPLE);
         simple::div_rem_in_place(lhs, rhs, fast_div_rhs_top)
     } else {
+        #[cfg(dashu_verif)]
+        dashu_base::verif::hit(dashu_base::verif::DIV_DC);
         divide_conquer::div_rem_in_place(lhs, rhs, fast_div_rhs_top, memory)
     }
 }
